@@ -14,7 +14,9 @@
               E(0) == mean-field energy for UCC ansaetze (all encodings, frozen orbitals), operator_expectation of
               N / Sz / S^2 / explicit operators == value in the state energy_estimation uses, under JW/BK/scBK/JKMN (HCB for
               pUCCD), both orderings, ref_state overrides (vector / circuit), projective circuits, penalties;
-              attribute qubit_hamiltonian restored after returning and raising calls.
+              attribute qubit_hamiltonian restored after returning and raising calls;
+              call histories on ONE solver object (energy_estimation / operator_expectation / get_rdm with alternating and repeated
+              parameter vectors): every value is the one of the vector passed to that call (state from a second solver object).
 """
 import contextlib
 import io
@@ -684,6 +686,126 @@ def run_override_stream(ck, tier):
                              {"kind": "solver", "cfg": cfgp, "theta": th}, True)
 
 
+# ------------------------------------------------------------------------------------------ stream H: call histories on ONE solver
+def twin_values(twin, theta):
+    """independent values for the parameter vector theta: the state comes from a SECOND solver object whose ansatz is set to
+    theta right now (never from the solver under test, whose circuit may be stale), evaluated with numpy."""
+    twin.ansatz.update_var_params(theta)
+    gs = composed_gates(twin)
+    terms = ham_terms(twin.qubit_hamiltonian)
+    n = width_of(gs, n_qubits_of(terms), *[d.width for d in twin.deflation_circuits])
+    psi = np_sim.run(gs, n)
+    plain = expect(terms, psi, n)
+    ov = [abs(np.vdot(np_sim.run(gate_tuples(d), n), psi)) ** 2 for d in twin.deflation_circuits]
+    return {"psi": psi, "n": n, "E": (plain + twin.deflation_coeff * sum(ov)).real}
+
+
+def history_configs(rng, tier):
+    out = [{"mol": "H2", "ansatz": "UCCSD", "qubit_mapping": "jw", "up_then_down": False},
+           {"mol": "H2", "ansatz": "UCCSD", "qubit_mapping": rng.choice(["scbk", "bk", "jkmn"]), "up_then_down": rng.random() < 0.5},
+           {"mol": "H2", "ansatz": "HEA", "qubit_mapping": "jw", "up_then_down": False, "ansatz_options": {"n_layers": 1}},
+           {"mol": "H4ff", "ansatz": "UpCCGSD", "qubit_mapping": rng.choice(ENC), "up_then_down": rng.random() < 0.5, "ansatz_options": {"k": 1}},
+           {"mol": "H2", "ansatz": "UCCSD", "qubit_mapping": "jw", "up_then_down": False, "ref_vec": [1, 0, 0, 1]},
+           {"mol": "H2", "ansatz": "UCCSD", "qubit_mapping": "jw", "up_then_down": False,
+            "defl": [[[{"name": "X", "target": [0], "control": None, "k": None, "var": False},
+                       {"name": "X", "target": [1], "control": None, "k": None, "var": False},
+                       {"name": "RY", "target": [2], "control": None, "k": 3, "var": False}], 4]], "deflation_coeff": 1.5},
+           {"ham": [[[[0, "Z"]], "1", "0"], [[[0, "X"], [1, "Y"]], "1/2", "0"], [[[1, "Z"]], "-3/4", "0"]], "ansatz_n": 2,
+            "ansatz_gates": [{"name": "RY", "target": [0], "control": None, "k": 3, "var": True},
+                             {"name": "CNOT", "target": [1], "control": [0], "k": None, "var": False},
+                             {"name": "RX", "target": [1], "control": None, "k": 5, "var": True}]}]
+    if tier != "quick":
+        out += [{"mol": "H4f", "ansatz": "UCCSD", "qubit_mapping": mp, "up_then_down": u} for mp in ENC for u in (False, True)]
+        out += [{"mol": m, "ansatz": a, "qubit_mapping": mp, "up_then_down": False} for m in ("H2", "H4ff") for a in ("QCC", "VSQS", "UCCGD", "QMF")
+                for mp in ("scbk", "bk")]
+        out += [{"mol": "H2", "ansatz": "pUCCD", "qubit_mapping": "hcb"}]
+    return out
+
+
+def gen_history(rng, n_thetas, length, with_rdm):
+    """calls (kind, theta index); the prefix E(a), other(b), E(a) is always present, the rest is random with repeats"""
+    kinds = ["E", "E", "N", "Sz", "S^2", "op"] + (["rdm"] if with_rdm else [])
+    other = lambda: rng.choice([k for k in kinds if k != "E"])
+    a, b = rng.sample(range(n_thetas), 2)
+    seq = [("E", a), (other(), b), ("E", a)]
+    while len(seq) < length:
+        seq.append((rng.choice(kinds), rng.randrange(n_thetas)))
+    return seq
+
+
+def run_history(ck, cfg, thetas, seq, record=True):
+    """returns the list of (call index, kind, theta index, implementation value, independent value) that differ"""
+    from tangelo.toolboxes.operators import QubitOperator
+    s, twin = make_solver(cfg), make_solver(cfg)
+    m = s.molecule
+    ind = independent_sym_ops(m.n_active_mos) if m is not None else None
+    hcb = s.qubit_mapping.upper() == "HCB"
+    bad = []
+    for i, (kind, ti) in enumerate(seq):
+        theta = thetas[ti]
+        tv = twin_values(twin, theta)
+        psi, n = tv["psi"], tv["n"]
+        if kind in ("N", "Sz", "S^2", "rdm") and (m is None or hcb and kind != "N"):
+            kind = "op"
+        if kind == "E":
+            got, want = quiet(s.energy_estimation, theta), tv["E"]
+        elif kind == "op":
+            q = QubitOperator("Z0") + 0.5 * QubitOperator("X0" if n < 2 else "X0 Y1")
+            got, want = quiet(s.operator_expectation, q, theta), expect(ham_terms(q), psi, n).real
+        elif kind == "rdm":
+            r1, _ = quiet(s.get_rdm, theta)
+            got = float(np.real(np.trace(r1)))
+            want = expect(ham_terms(map_independent(ind["N"], s, m)), psi, n).real
+        else:
+            got = quiet(s.operator_expectation, kind, theta)
+            want = 2.0 * float(np.dot(np.abs(psi) ** 2, [bin(x).count("1") for x in range(1 << n)])) if hcb else \
+                expect(ham_terms(map_independent(ind[kind], s, m)), psi, n).real
+        got = float(np.real(got))
+        if record:
+            ck.case("call-histories", {"cfg": cfg, "seq": seq, "i": i}, nontrivial=i >= 2 and any(t != ti for _, t in seq[:i]),
+                    sample={"cfg": cfg, "call": [kind, ti], "impl": got, "independent": want}, tags=["call:" + kind])
+        if abs(got - want) > TOL:
+            bad.append((i, kind, ti, got, want))
+    return bad
+
+
+def run_history_stream(ck, tier):
+    ck.stream("call-histories", "ONE solver object driven through random sequences of energy_estimation / operator_expectation / get_rdm with 2-3 "
+              "alternating parameter vectors (repeats of earlier vectors included); every returned value vs the independent value for the "
+              "vector passed to THAT call (state from a second solver object); non-trivial = call preceded by a call with another vector")
+    quick = tier == "quick"
+    for cfg in history_configs(ck.rng, tier):
+        try:
+            probe = make_solver(cfg)
+        except Exception as ex:
+            ck.case("call-histories", {"cfg": cfg, "build": "raises"}, nontrivial=False, tags=["build-raises"])
+            continue
+        nv = probe.ansatz.n_var_params
+        for _ in range(2 if quick else 4):
+            nt = ck.rng.choice([2, 3])
+            thetas = [rand_theta(ck.rng, nv, ck.rng.choice(["rand", "grid"])) for _ in range(nt)]
+            seq = gen_history(ck.rng, nt, ck.rng.randint(5, 8) if quick else ck.rng.randint(6, 12),
+                              with_rdm=probe.molecule is not None and probe.qubit_mapping.upper() != "HCB" and probe.molecule.n_active_sos <= 4)
+            bad = run_history(ck, cfg, thetas, seq)
+            for (i, kind, ti, got, want) in bad[:1]:
+                # shrink: the shortest prefix that still fails at its last call
+                short = seq[:i + 1]
+                for j in range(i):
+                    cand = short[:j] + short[j + 1:]
+                    try:
+                        b2 = run_history(ck, cfg, thetas, cand, record=False)
+                    except Exception:
+                        continue
+                    if b2 and b2[0][0] == len(cand) - 1:
+                        short = cand
+                        break
+                what = {"E": "energy_estimation", "rdm": "get_rdm"}.get(kind, "operator_expectation")
+                ck.violation("C08/history/%s/value-depends-on-earlier-calls" % what,
+                             "%s(theta_%d) as call %d of the history %s on one solver returns %.10f; the independent value for THAT vector is %.10f"
+                             % (what, ti, i, [(k, "theta_%d" % t) for k, t in seq[:i + 1]], got, want),
+                             {"kind": "history", "cfg": cfg, "thetas": thetas, "seq": [list(x) for x in short]}, found_input=True)
+
+
 # ------------------------------------------------------------------------------------------ stream D: restore
 def restore_cases(ck):
     from tangelo.toolboxes.operators import QubitOperator, FermionOperator
@@ -829,6 +951,7 @@ def run(ck):
     guarded("restore", restore_cases, ck)
     guarded("solver", lambda: run_solver_stream(ck, solver_configs(ck.rng, ck.tier), 1 if quick else 3))
     guarded("overrides", run_override_stream, ck, ck.tier)
+    guarded("histories", run_history_stream, ck, ck.tier)
     ck.notes["timing_s"] = tm
 
 
@@ -884,6 +1007,14 @@ def replay(data):
         target = data.get("signature")
         # violations with another signature (e.g. recorded known findings met on the way) do not count
         return 1 if generic or target in ck.violations else 0
+    if kind == "history":
+        seq = [tuple(x) for x in r["seq"]]
+        bad = run_history(ck, r["cfg"], r["thetas"], seq, record=False)
+        for b in bad:
+            print("call %d %s(theta_%d): returned %.10f, independent value %.10f" % b)
+        if not bad:
+            print("every call of the history returns the value of the vector passed to it")
+        return 1 if bad else 0
     if kind == "restore":
         restore_cases(ck)
         return 1 if data.get("signature") in ck.violations else 0
